@@ -66,6 +66,19 @@ CAT = {
     "C26-B": ("C-FIND exception branch simplified; identifier reset moved below it", "a C-FIND generator that yields a match and then raises", ["C26", "C21"]),
     "C27-A": ("P-DATA-TF read in Sta13 is not decoded nor announced via EVT_PDU_RECV", "a P-DATA-TF already buffered when the provider enters Sta13", ["C27"]),
     "C27-B": ("the acceptor's association thread is started before EVT_CONN_OPEN is triggered", "the request thread descheduled between start() and the trigger", ["C27"]),
+    # --- third round: written after the strengthening of 13.6, by fresh sub-agents (source /tmp/seed/out3/<ID>/A)
+    "C03-C": ("header parsed with int.from_bytes and the completeness test compares the body with the length field only", "the peer closing 1-5 bytes into a PDU header whose length bytes received so far are zero", ["C03"]),
+    "C05-C": ("AA-7 also restarts the ARTIM timer (same idea as C04-B, written independently for C05)", "a peer that keeps sending A-ASSOCIATE-RQ / invalid PDUs in Sta13 for longer than the ARTIM timeout", ["C04", "C08"]),
+    "C06-C": ("the provider's request queue becomes bounded (maxsize 32)", "a DIMSE message of more than 32 fragments in flight when the local provider thread ends (reset, peer abort)", ["C06"]),
+    "C07-C": ("_handle_no_response() calls the consuming is_release_requested() before deciding to abort", "the peer answers a sub-operation request with A-RELEASE-RQ and the acceptor's DIMSE timeout is shorter than the peer's ACSE timeout", ["C07"]),
+    "C08-C": ("get_msg() waits on while a message is part-received (as C08-B / C24-B, written independently)", "the peer stops at a PDU boundary inside a DIMSE message", ["C08", "C24"]),
+    "C14-C": ("the limit check uses the spawning server's active_associations (per listener, as C14-B)", "one AE listening on two ports", ["C14"]),
+    "C15-C": ("maximum_pdu_size: own maximum when the peer's is 0, else min(peer, local) - a local 0 switches fragmentation off", "local side announced 0, peer a finite maximum", ["C15"]),
+    "C20-C": ("the Storage status lookup of a sub-operation moved out of the try block", "the storage SCP answers a sub-operation with a status outside the Storage table", ["C20"]),
+    "C22-C": ("all-failed status decided by 'nothing completed or warned' (as C22-A, written independently)", "handler announces N, yields fewer, every performed sub-operation fails", ["C22"]),
+    "C23-C": ("the pre-operation clear of the C-CANCEL store replaced by a clear on every idle reactor poll", "a C-CANCEL and the next request (same message ID) arriving within one reactor poll interval", ["C23"]),
+    "C24-C": ("decode_msg skips empty fragments - including the 'last' test", "a peer ending a data set with an empty fragment marked last", ["C24", "C15"]),
+    "C27-C": ("AA-2 triggers EVT_CONN_CLOSE only if the socket is still connected - after closing it", "AA-2 closing the connection (ARTIM expiry in Sta2, abort collision in Sta13)", ["C27"]),
 }
 
 
@@ -93,7 +106,7 @@ def parse_validate(txt):
 def do_import():
     for key in sorted(CAT):
         pid, k = key.split("-")
-        src = os.path.join(SRC, pid, k)
+        src = os.path.join(SRC, pid, k) if k != "C" else os.path.join("/tmp/seed/out3", pid, "A")
         if not os.path.exists(os.path.join(src, "validate.txt")):
             print("skip (no validate.txt):", key)
             continue
